@@ -195,6 +195,8 @@ fn special_case(c: &J) -> Result<usize, String> {
                 "negsub" => -f64::MIN_POSITIVE / 2.0,
                 "zero" => 0.0,
                 "negzero" => -0.0,
+                "huge" => -1e200,
+                "max" => f64::MAX,
                 "nan" => f64::NAN,
                 "pinf" => f64::INFINITY,
                 _ => f64::NEG_INFINITY,
